@@ -1,4 +1,5 @@
 import AikenVerif.Drivers.Names
+import AikenVerif.Drivers.Match
 /-!
 Native driver: line protocol.  Each request line is
   `<sub-command> <case-id> <fields…>`
@@ -9,6 +10,7 @@ open AikenVerif
 def dispatch (sub : String) (args : List String) : String :=
   match sub with
   | "names" => Drivers.Names.handle args
+  | "match" => Drivers.Match.handle args
   | _ => "unknown-subcommand"
 
 partial def loop (h : IO.FS.Stream) (out : IO.FS.Stream) : IO Unit := do
